@@ -283,7 +283,7 @@ def gen_stmt(r, st, closures, counter):
     kind = r.choice(["decl", "assign", "idx", "idx", "idx", "opassign", "opassign", "opassign", "every_slice", "every_vars",
                      "every_dict", "pop", "remove", "remove_slice", "remove_key", "consume", "swap", "swap", "update",
                      "elem", "dotassign", "closure_make", "closure_call", "forloop", "default_mat", "nested_append", "failed", "failed",
-                     "idx_equal_other_type", "and_op", "and_op", "every_op_slice", "idx_order"])
+                     "idx_equal_other_type", "and_op", "and_op", "every_op_slice", "idx_order", "swap_same"])
     big = total_size(st) > 160
     if kind == "decl":
         free = [v for v in VARS if v not in st]
@@ -472,6 +472,19 @@ def gen_stmt(r, st, closures, counter):
         if total_size(st) > 260:
             return "ABORT"
         return "swap %s, %s" % (path_src(x, p[0]), path_src(y, q[0])), kind, [x, y]
+    if kind == "swap_same":
+        # both operands name the SAME slot (cursors of a reversal / partition loop that meet), possibly spelled
+        # differently (i and i - len): nothing changes
+        q = random_path(r, xv)
+        if not q or not q[0]:
+            return None
+        steps = q[0]
+        alt = list(steps)
+        k_, i_ = alt[-1]
+        if k_ == "i" and r.random() < 0.6:
+            parent = get_path(xv, steps[:-1])
+            alt[-1] = ("i", i_ - len(parent) if i_ >= 0 else i_ + len(parent))
+        return "swap %s, %s" % (path_src(x, steps), path_src(x, alt)), kind, [x]
     if kind == "update":
         free = [v for v in VARS if v not in st]
         if not free or not (is_list(xv) and xv or isinstance(xv, NDict) and xv.m or isinstance(xv, Inst)):
